@@ -780,6 +780,7 @@ func vTextKeyOpCases(r *rand.Rand, out *vOut, mon *vMonLimiter, n int) {
 				run([]string{name, "k", "7", "v", a, b})
 				run([]string{name, "k", "v", a, b, "3"})
 			}
+			run([]string{name, "k", "1", "x", a})
 		}
 		for _, kw := range vFlagKeywords {
 			for _, v := range vNumTokens {
